@@ -78,6 +78,7 @@ def loop_blocks(fn):
 
 def check_daa(res, facts):
     rule = res.rule("R-DAA", "double-and-add loops: identity start, MSB-first bits, double before conditional add of the base, accumulator returned", 6)
+    hosts = {}
     for fn in facts.fns(unit="ws"):
         if fn.crate not in ("ark_ec", "ark_ff") or fn.kind == "Closure" or "::tests::" in fn.id:
             continue
@@ -135,10 +136,91 @@ def check_daa(res, facts):
             rev = [t for bb, t in fn.calls() if t["f"].get("name") == "rev"]
             if rev:
                 problems.append("bit iterator is reversed")
+        hosts[fn.id] = not problems
         if problems:
             rule.bad(key, "; ".join(problems), fn.loc)
         else:
             rule.ok(key, "%s-then-%s on %s" % (dt["f"]["name"], at["f"]["name"], "BitIteratorBE" if ctors else "caller-supplied MSB-first stream"), fn.loc)
+    hosts.update(check_daa_fold(rule, facts))
+    # entry points that hand the whole job to one of the loops above (a shared helper): one instance each
+    for fn in facts.fns(unit="ws"):
+        if fn.crate not in ("ark_ec", "ark_ff") or fn.kind == "Closure" or "::tests::" in fn.id or fn.id in hosts:
+            continue
+        for bb, t, callee in DF.local_callees(facts, fn):
+            if callee.id in hosts and fn.name in RAW_ENTRY | {"pow", "pow_with_table", "mul_bigint"}:
+                key = "%s|%s" % (fn.crate, fn.id[-110:])
+                (rule.ok if hosts[callee.id] else rule.bad)(key, "delegates to %s (%s)" % (callee.name, "decided above" if hosts[callee.id] else "which violates the recurrence"), fn.loc)
+                break
+
+
+def check_daa_fold(rule, facts):
+    """the same recurrence written as `bits.fold(identity, |mut acc, bit| { acc.double(); if bit { acc += base }; acc })`"""
+    from rules.c07 import E, show
+    hosts = {}
+    for fn in facts.fns(unit="ws"):
+        if fn.crate not in ("ark_ec", "ark_ff") or fn.kind == "Closure" or "::tests::" in fn.id:
+            continue
+        for bb, t in fn.calls():
+            if t["f"].get("name") != "fold" or len(t["args"]) != 3:
+                continue
+            clos = [facts.get(cid, fn.unit) for cid in closure_args(fn, t)]
+            clos = [c for c in clos if c is not None]
+            if len(clos) != 1:
+                continue
+            c = clos[0]
+            if c.local_ty(3) != "bool":
+                continue        # not a fold over a bit stream (e.g. the MSM window recombination: C05)
+            dbl = [(b2, t2) for b2, t2 in c.calls() if t2["f"].get("name") in DOUBLERS]
+            if len(dbl) != 1:
+                continue
+            dbb, dt = dbl[0]
+            kind = DOUBLERS[dt["f"]["name"]]
+            adds = [(b2, t2) for b2, t2 in c.calls() if t2["f"].get("name") in ADDERS[kind] and (t2["f"].get("trait") or "").startswith("core::ops::arith::")]
+            others = [t2 for b2, t2 in c.calls() if t2["f"].get("name") in ("sub_assign", "sub", "index", "get")]
+            if len(adds) != 1 or others:
+                continue
+            abb, at = adds[0]
+            key = "%s|%s" % (fn.crate, fn.id[-110:])
+            problems = []
+            acc, acc2 = root_key(c, dt["args"][0]), root_key(c, at["args"][0])
+            if acc is None or acc != acc2 or acc != ("local", 2) and acc != 2 and str(acc).find("2") < 0:
+                if acc is None or acc != acc2:
+                    problems.append("the value that is doubled is not the accumulator that is added to")
+            if not c.dominates(dbb, abb):
+                problems.append("the conditional add is not preceded by the doubling in the iteration")
+            cd = DF.control_deps(c)
+            dep = DF.Dep(c)
+            guarded = False
+            for (sw, s_) in cd.get(abb, ()):
+                o = c.bbs[sw]["t"].get("o")
+                l = op_local(o) if o else None
+                if l is not None and (l == 3 or 3 in dep.slice([l])):
+                    guarded = True
+            if not guarded:
+                problems.append("the add is not conditional on the current bit")
+            b_root = root_key(c, at["args"][1]) if len(at["args"]) > 1 else None
+            if b_root is not None and b_root == acc:
+                problems.append("the accumulator is added to itself")
+            init = E(fn, t["args"][1])
+            if init != {"zero": 0, "one": 1}[IDENT[kind]] and init != ("call", IDENT[kind], ()):
+                problems.append("accumulator is not initialised with %s() (fold starts from %s)" % (IDENT[kind], show(init)[:60]))
+            src = show(E(fn, t["args"][0]))
+            ctors = [t2 for _, t2 in fn.calls() if t2["f"].get("self_head", "").startswith("ark_ff::bits::BitIterator")]
+            if ctors:
+                head = ctors[0]["f"]["self_head"].rsplit("::", 1)[-1]
+                if head != "BitIteratorBE":
+                    problems.append("bits are produced by %s (least-significant first) but consumed by a double-then-add recurrence" % head)
+                if any(t2["f"].get("name") == "rev" for _, t2 in fn.calls()):
+                    problems.append("bit iterator is reversed")
+            # the fold's result is what the function returns
+            if E(fn, {"c": 0}) != E(fn, {"c": place_parts(t["d"])[0]}) and place_parts(t["d"])[0] != 0:
+                problems.append("the folded accumulator is not what is returned")
+            hosts[fn.id] = not problems
+            if problems:
+                rule.bad(key, "; ".join(problems), fn.loc)
+            else:
+                rule.ok(key, "fold(%s(), |acc, bit| %s-then-%s) on %s" % (IDENT[kind], dt["f"]["name"], at["f"]["name"], "BitIteratorBE" if ctors else src[:40]), fn.loc)
+    return hosts
 
 
 def check_rawscalar(res, facts):
@@ -241,11 +323,21 @@ def check_bits(res, facts):
         key = "%s|%s" % (f.crate, f.id)
         arg = BITS_SITES[f.id]
         its = [t for _, t in f.calls() if "BitIterator" in (t["f"].get("path") or "") and t["f"].get("name") in ("new", "without_leading_zeros", "without_trailing_zeros")]
+        host, harg = f, arg
+        if not its:
+            # the loop may live in a helper of the same crate that receives the scalar parameter unchanged
+            for bb, t, callee in DF.local_callees(facts, f):
+                js = [j for j, a in enumerate(t["args"]) if E(f, a) == ("arg", arg, ())]
+                its2 = [t2 for _, t2 in callee.calls() if "BitIterator" in (t2["f"].get("path") or "") and t2["f"].get("name") in ("new", "without_leading_zeros", "without_trailing_zeros")]
+                if len(js) == 1 and len(its2) == 1:
+                    host, harg, its = callee, js[0] + 1, its2
+                    break
         if len(its) != 1:
             rule.bad(key, "expected one bit iterator over the scalar, found %d" % len(its), f.loc)
             continue
         seen.add(f.id)
-        src = E(f, its[0]["args"][0])
+        src = E(host, its[0]["args"][0])
+        arg = harg
         if src == ("arg", arg, ()):
             rule.ok(key, "%s over the scalar parameter" % its[0]["f"].get("name"), f.loc)
         elif isinstance(src, tuple) and src[0] == "call" and len(src[2]) == 1 and src[2][0] == ("arg", arg, ()):
